@@ -41,8 +41,28 @@ type FileA struct {
 type FormA struct {
 	Steps  []string `json:"steps"`            // rewrites composed in this form
 	Files  []FileA  `json:"files"`            // one file, or several merged with hcl.MergeFiles
-	Merge  bool     `json:"merge,omitempty"`  // wrap in MergeFiles even when there is one file
+	Merge  bool     `json:"merge,omitempty"`  // wrap in a merged body even when there is one file
+	Shape  string   `json:"shape,omitempty"`  // how the merged body is assembled: files left right pairs base+1 one-at-a-time
+	Twice  bool     `json:"twice,omitempty"`  // decode the same body a second time
 	Expand bool     `json:"expand,omitempty"` // wrap in dynblock.Expand
+}
+
+// OverlayA is one independent extension of the layered base: the overlay file and
+// the plain single-file text of the whole configuration base+overlay.
+type OverlayA struct {
+	File FileA `json:"file"`
+	Ref  FileA `json:"ref"`
+}
+
+// LayeredA: one base (k files merged in some shape) and 2-3 overlays; every
+// configuration base+overlay[i] is hcl.MergeBodies([base, overlay[i]]) on the SAME
+// base body.
+type LayeredA struct {
+	Base           []FileA    `json:"base"`
+	Shape          string     `json:"shape"`
+	Overlays       []OverlayA `json:"overlays"`
+	DecodeAfterAll bool       `json:"decode_after_all"` // build all merged bodies first, then decode each
+	Twice          bool       `json:"twice,omitempty"`
 }
 
 type CaseA struct {
@@ -53,6 +73,84 @@ type CaseA struct {
 	Vars   []cfggen.KV  `json:"vars,omitempty"`    // context variables used by for_each expressions
 	Forms  []FormA      `json:"forms"`             // Forms[0] is the reference: plain native text
 	Stats  []string     `json:"stats,omitempty"`   // generator classes hit (for the label histogram)
+	Layers *LayeredA    `json:"layers,omitempty"`
+}
+
+// fileCounts: number of files a configuration is split into (2-9).
+var fileCounts = []int{2, 2, 3, 3, 4, 5, 5, 6, 7, 8, 9}
+
+// mergeShapes: how the bodies of the files are assembled into one merged body.
+//
+//	files          hcl.MergeFiles(all)
+//	left           ((f1 f2) f3) ...      incremental MergeBodies, accumulator first
+//	right          f1 (f2 (f3 ...))      accumulator last
+//	pairs          MergeBodies([MergeBodies(first half), MergeBodies(second half)])
+//	base+1         MergeBodies([MergeFiles(all but the last), last])
+//	one-at-a-time  base grown from an empty merged body, one body per step
+var mergeShapes = []string{"files", "files", "left", "right", "pairs", "base+1", "one-at-a-time"}
+
+func filterBody(in *cfggen.BodyI, owned map[string]bool, want bool) cfggen.BodyI {
+	var out cfggen.BodyI
+	for _, a := range in.Attrs {
+		if owned[a.Name] == want {
+			out.Attrs = append(out.Attrs, a)
+		}
+	}
+	for _, b := range in.Blocks {
+		if owned[b.Type] == want {
+			out.Blocks = append(out.Blocks, b)
+		}
+	}
+	return out
+}
+
+func renderFile(t *rapid.T, c *CaseA, name string, body cfggen.RBody, stats map[string]int) FileA {
+	if rapid.IntRange(0, 9).Draw(t, "json") >= 6 {
+		j := &cfggen.JSON{T: t, Noise: rapid.Bool().Draw(t, "jnoise"), Template: !c.NilCtx, Stats: stats}
+		return FileA{Name: name + ".hcl.json", JSON: true, Src: j.File(body)}
+	}
+	n := &cfggen.Native{T: t, Stats: stats, Noise: rapid.IntRange(0, 9).Draw(t, "noise") >= 7}
+	return FileA{Name: name + ".hcl", Src: n.Body(body, 0)}
+}
+
+// genLayers: top-level attribute names and block types are divided between the
+// base and the overlay; the base part comes from the case's instance, each overlay
+// part from an instance of its own, so every base+overlay is a configuration of
+// the schema in its own right.
+func genLayers(t *rapid.T, c *CaseA, stats map[string]int) *LayeredA {
+	owned := map[string]bool{}
+	for _, a := range c.Schema.Attrs {
+		if rapid.Bool().Draw(t, "overlay-owns") {
+			owned[a.Name] = true
+		}
+	}
+	for _, b := range c.Schema.Blocks {
+		if rapid.Bool().Draw(t, "overlay-owns") {
+			owned[b.Name] = true
+		}
+	}
+	base := filterBody(&c.Inst, owned, false)
+	l := &LayeredA{Shape: rapid.SampledFrom(mergeShapes).Draw(t, "shape")}
+	k := rapid.SampledFrom(append([]int{1}, fileCounts...)).Draw(t, "kbase")
+	for i, p := range cfggen.Split(t, cfggen.PlainBody(&c.Schema, &base), k) {
+		l.Base = append(l.Base, renderFile(t, c, fmt.Sprintf("base%d", i), p, stats))
+	}
+	n := rapid.IntRange(2, 3).Draw(t, "noverlays")
+	for j := 0; j < n; j++ {
+		inst := c.Inst
+		if j > 0 {
+			inst = cfggen.GenInstance(t, &c.Schema)
+		}
+		ov := filterBody(&inst, owned, true)
+		whole := cfggen.BodyI{Attrs: append(append([]cfggen.AttrI{}, base.Attrs...), ov.Attrs...), Blocks: append(append([]cfggen.BlockI{}, base.Blocks...), ov.Blocks...)}
+		l.Overlays = append(l.Overlays, OverlayA{
+			File: renderFile(t, c, fmt.Sprintf("overlay%d", j), cfggen.PlainBody(&c.Schema, &ov), stats),
+			Ref:  FileA{Name: fmt.Sprintf("whole%d.hcl", j), Src: (&cfggen.Native{T: t}).Body(cfggen.PlainBody(&c.Schema, &whole), 0)},
+		})
+	}
+	l.DecodeAfterAll = rapid.IntRange(0, 3).Draw(t, "decode-after-all") > 0
+	l.Twice = rapid.IntRange(0, 3).Draw(t, "twice") == 3
+	return l
 }
 
 func genA(t *rapid.T) CaseA {
@@ -97,12 +195,15 @@ func genA(t *rapid.T) CaseA {
 		// 3. split
 		parts := []cfggen.RBody{body}
 		if rapid.IntRange(0, 9).Draw(t, "split") >= 6 {
-			k := rapid.IntRange(2, 3).Draw(t, "k")
+			k := rapid.SampledFrom(fileCounts).Draw(t, "k")
 			parts = cfggen.Split(t, body, k)
 			steps["split"] = true
 			f.Merge = true
+			f.Shape = rapid.SampledFrom(mergeShapes).Draw(t, "shape")
+			f.Twice = rapid.IntRange(0, 3).Draw(t, "twice") == 3
 		} else if rapid.IntRange(0, 7).Draw(t, "merge1") == 7 {
 			f.Merge = true
+			f.Shape = rapid.SampledFrom(mergeShapes).Draw(t, "shape")
 			steps["merge1"] = true
 		}
 		// 4. syntax + text-level rewrites per file
@@ -139,6 +240,9 @@ func genA(t *rapid.T) CaseA {
 		sort.Strings(f.Steps)
 		c.Forms = append(c.Forms, f)
 	}
+	if rapid.IntRange(0, 9).Draw(t, "layered") >= 5 {
+		c.Layers = genLayers(t, &c, stats)
+	}
 	c.Vars = ds.Vars
 	for k := range stats {
 		c.Stats = append(c.Stats, k)
@@ -155,6 +259,7 @@ type outcome struct {
 	goVal    reflect.Value
 	goErr    bool
 	goDiag   string
+	twice    string // non-empty: a second decode of the same body disagreed with the first
 }
 
 func evalCtx(c *CaseA) *hcl.EvalContext {
@@ -168,11 +273,9 @@ func evalCtx(c *CaseA) *hcl.EvalContext {
 	return ctx
 }
 
-func decodeForm(c *CaseA, f *FormA, spec hcldec.Spec, st reflect.Type) outcome {
-	var o outcome
-	ctx := evalCtx(c)
+func parseFiles(fls []FileA) ([]*hcl.File, string) {
 	var files []*hcl.File
-	for _, fl := range f.Files {
+	for _, fl := range fls {
 		src := []byte(fl.Src)
 		if fl.Format {
 			src = hclwrite.Format(src)
@@ -185,23 +288,66 @@ func decodeForm(c *CaseA, f *FormA, spec hcldec.Spec, st reflect.Type) outcome {
 			file, diags = hclsyntax.ParseConfig(src, fl.Name, hcl.Pos{Line: 1, Column: 1})
 		}
 		if diags.HasErrors() || file == nil {
-			o.parseErr = true
-			o.decErr, o.goErr = true, true
-			o.decDiag = "parse " + fl.Name + ": " + diags.Error()
-			o.goDiag = o.decDiag
-			return o
+			return nil, "parse " + fl.Name + ": " + diags.Error()
 		}
 		files = append(files, file)
 	}
-	var body hcl.Body
-	if f.Merge || len(files) != 1 {
-		body = hcl.MergeFiles(files)
-	} else {
-		body = files[0].Body
+	return files, ""
+}
+
+// assemble builds one merged body from the files in the given shape.
+func assemble(files []*hcl.File, shape string) hcl.Body {
+	bodies := make([]hcl.Body, len(files))
+	for i, f := range files {
+		bodies[i] = f.Body
 	}
-	if f.Expand {
-		body = dynblock.Expand(body, ctx)
+	n := len(bodies)
+	switch shape {
+	case "left":
+		if n == 0 {
+			break
+		}
+		acc := hcl.MergeBodies(bodies[:1:1])
+		for _, b := range bodies[1:] {
+			acc = hcl.MergeBodies([]hcl.Body{acc, b})
+		}
+		return acc
+	case "right":
+		if n == 0 {
+			break
+		}
+		acc := hcl.MergeBodies(bodies[n-1:])
+		for i := n - 2; i >= 0; i-- {
+			acc = hcl.MergeBodies([]hcl.Body{bodies[i], acc})
+		}
+		return acc
+	case "pairs":
+		if n < 2 {
+			break
+		}
+		h := n / 2
+		return hcl.MergeBodies([]hcl.Body{hcl.MergeBodies(bodies[:h:h]), hcl.MergeBodies(bodies[h:])})
+	case "base+1":
+		if n < 2 {
+			break
+		}
+		return hcl.MergeBodies([]hcl.Body{hcl.MergeFiles(files[:n-1]), bodies[n-1]})
+	case "one-at-a-time":
+		acc := hcl.EmptyBody()
+		for _, b := range bodies {
+			acc = hcl.MergeBodies([]hcl.Body{acc, b})
+		}
+		return acc
 	}
+	return hcl.MergeFiles(files)
+}
+
+func failedParse(msg string) outcome {
+	return outcome{parseErr: true, decErr: true, goErr: true, decDiag: msg, goDiag: msg}
+}
+
+func decodeBody(body hcl.Body, ctx *hcl.EvalContext, spec hcldec.Spec, st reflect.Type) outcome {
+	var o outcome
 	val, diags := hcldec.Decode(body, spec, ctx)
 	o.decVal, o.decErr = val, diags.HasErrors()
 	if o.decErr {
@@ -214,6 +360,111 @@ func decodeForm(c *CaseA, f *FormA, spec hcldec.Spec, st reflect.Type) outcome {
 		o.goDiag = gd.Error()
 	}
 	return o
+}
+
+// sameOutcome: two decodes of what should be the same configuration agree.
+func sameOutcome(a, b outcome) (string, string) {
+	if a.decErr != b.decErr {
+		return "hcldec|errors-differ", fmt.Sprintf("errors=%v (%s) vs errors=%v (%s)", a.decErr, clipS(a.decDiag, 300), b.decErr, clipS(b.decDiag, 300))
+	}
+	if a.goErr != b.goErr {
+		return "gohcl|errors-differ", fmt.Sprintf("errors=%v (%s) vs errors=%v (%s)", a.goErr, clipS(a.goDiag, 300), b.goErr, clipS(b.goDiag, 300))
+	}
+	if !a.decErr && !cfggen.EqualValue(a.decVal, b.decVal) {
+		return "hcldec|value-differs", fmt.Sprintf("%#v\nvs\n%#v", a.decVal, b.decVal)
+	}
+	if !a.goErr {
+		if ok, where := cfggen.EqualGo(a.goVal, b.goVal); !ok {
+			return "gohcl|value-differs", "structs differ at " + where
+		}
+	}
+	return "", ""
+}
+
+func decodeForm(c *CaseA, f *FormA, spec hcldec.Spec, st reflect.Type) outcome {
+	ctx := evalCtx(c)
+	files, perr := parseFiles(f.Files)
+	if perr != "" {
+		return failedParse(perr)
+	}
+	var body hcl.Body
+	if f.Merge || len(files) != 1 {
+		body = assemble(files, f.Shape)
+	} else {
+		body = files[0].Body
+	}
+	if f.Expand {
+		body = dynblock.Expand(body, ctx)
+	}
+	o := decodeBody(body, ctx, spec, st)
+	if f.Twice {
+		// the same body decoded again gives the same result
+		o2 := decodeBody(body, ctx, spec, st)
+		if sig, msg := sameOutcome(o, o2); sig != "" {
+			o.twice = sig + ": " + msg
+		}
+	}
+	return o
+}
+
+// checkLayers: every base+overlay decodes like its own single-file text.
+func checkLayers(c *CaseA, spec hcldec.Spec, st reflect.Type) *core.Violation {
+	l := c.Layers
+	ctx := evalCtx(c)
+	baseFiles, perr := parseFiles(l.Base)
+	if perr != "" {
+		return nil // (single-fault instances: a parse error belongs to the reference too)
+	}
+	base := assemble(baseFiles, l.Shape)
+	type cfg struct {
+		body hcl.Body
+		ref  outcome
+		i    int
+	}
+	order := "decode-right-after-building"
+	if l.DecodeAfterAll {
+		order = "decode-after-all-built"
+	}
+	verdict := func(g cfg, order string) *core.Violation {
+		runs := 1
+		if l.Twice {
+			runs = 2
+		}
+		for r := 0; r < runs; r++ {
+			o := decodeBody(g.body, ctx, spec, st)
+			if sig, msg := sameOutcome(g.ref, o); sig != "" {
+				return core.V(fmt.Sprintf("%s|layered|%s", sig, order),
+					"configuration base+overlay%d (base of %d files, shape %s, %d overlays, %s, decode #%d) differs from its single-file text: %s\n--- single file\n%s\n--- overlay\n%s",
+					g.i, len(l.Base), l.Shape, len(l.Overlays), order, r+1, clipS(msg, 1500), clipS(l.Overlays[g.i].Ref.Src, 1500), clipS(l.Overlays[g.i].File.Src, 800))
+			}
+		}
+		return nil
+	}
+	var cfgs []cfg
+	for i, ov := range l.Overlays {
+		of, perr := parseFiles([]FileA{ov.File})
+		rf, rerr := parseFiles([]FileA{ov.Ref})
+		if perr != "" || rerr != "" {
+			continue
+		}
+		g := cfg{body: hcl.MergeBodies([]hcl.Body{base, of[0].Body}), ref: decodeBody(rf[0].Body, ctx, spec, st), i: i}
+		if !l.DecodeAfterAll {
+			if v := verdict(g, order); v != nil {
+				return v
+			}
+		}
+		cfgs = append(cfgs, g)
+	}
+	// (also in the control order every configuration is looked at again at the end)
+	if !l.DecodeAfterAll {
+		order = "decoded-again-after-all-built"
+	}
+	for _, g := range cfgs {
+		if v := verdict(g, order); v != nil {
+			return v
+		}
+	}
+	return nil
 }
 
 func stepsSig(f *FormA) string {
@@ -280,6 +531,9 @@ func checkA(c CaseA) *core.Violation {
 		f := &c.Forms[i]
 		o := decodeForm(&c, f, spec, st)
 		sig := stepsSig(f)
+		if o.twice != "" {
+			return core.V("decode-twice|"+sig, "decoding the same merged body a second time gives another result: %s", clipS(o.twice, 2000))
+		}
 		if c.Fault == "missing-label" && hasStep(f, "json") {
 			// the JSON syntax has no way to write "a block with a label missing": label
 			// levels are told apart from the body by the schema alone (json/spec.md,
@@ -316,6 +570,9 @@ func checkA(c CaseA) *core.Violation {
 				return core.V("gohcl|value-differs|"+sig, "gohcl.DecodeBody of form %v differs from the reference at %s\n%s", f.Steps, where, show())
 			}
 		}
+	}
+	if c.Layers != nil && c.Fault != "missing-label" {
+		return checkLayers(&c, spec, st)
 	}
 	return nil
 }
@@ -356,6 +613,16 @@ func classifyA(c CaseA) core.Class {
 			combos[strings.Join(rw, "+")] = true
 			cl.Labels = append(cl.Labels, "combo:"+strings.Join(rw, "+"))
 		}
+		if f.Merge || len(f.Files) > 1 {
+			shape := f.Shape
+			if shape == "" {
+				shape = "files"
+			}
+			cl.Labels = append(cl.Labels, fmt.Sprintf("files=%d", len(f.Files)), "merge-shape="+shape)
+			if f.Twice {
+				cl.Labels = append(cl.Labels, "decode-twice")
+			}
+		}
 		if len(f.Files) > 1 {
 			nj := 0
 			for _, fl := range f.Files {
@@ -366,6 +633,17 @@ func classifyA(c CaseA) core.Class {
 			if nj > 0 && nj < len(f.Files) {
 				cl.Labels = append(cl.Labels, "split:mixed-syntax")
 			}
+		}
+	}
+	if l := c.Layers; l != nil {
+		cl.Labels = append(cl.Labels, fmt.Sprintf("layered:overlays=%d", len(l.Overlays)), fmt.Sprintf("layered:base-files=%d", len(l.Base)), "layered:merge-shape="+l.Shape)
+		if l.DecodeAfterAll {
+			cl.Labels = append(cl.Labels, "layered:decode-after-all-built")
+		} else {
+			cl.Labels = append(cl.Labels, "layered:decode-right-after-building")
+		}
+		if l.Twice {
+			cl.Labels = append(cl.Labels, "layered:decode-twice")
 		}
 	}
 	cl.Labels = append(cl.Labels, c.Stats...)
@@ -440,7 +718,7 @@ func classifyA(c CaseA) core.Class {
 func TestC19a(t *testing.T) {
 	core.Run(t, core.Spec[CaseA]{
 		Property: "C19", Sub: "a",
-		Rule: "generated hcldec spec / gohcl struct type (attributes: string number bool list set map object tuple any; blocks: single list set tuple with 0-8 labels (BlockLabelSpec / label fields), map and object-map with 1-8 LabelNames, attrs; up to 4 sibling blocks that often share a label prefix (typically all but the last label); nesting<=3) + conforming or single-fault instance, rendered as plain native text (reference) and 2-5 forms composing: JSON syntax (own emitter from json/spec.md), shuffled items, comments/odd whitespace/CRLF, hclwrite.Format, k-way split merged with hcl.MergeFiles (attributes in exactly one file, per-type block order kept), runs of blocks folded into dynamic blocks (tuple/object/variable for_each, labels, custom iterator, nested, inherited iterator) expanded with dynblock.Expand. Oracle: every form agrees with the reference on has-errors and on the decoded value for hcldec.Decode and gohcl.DecodeBody, and the reference of a conforming instance decodes to the instance. Non-trivial: >=1 repeated or labelled block and a form composing >=2 rewrites; distinct = (valid/faulty, nesting>=2, widest rewrite combination of the case)",
+		Rule: "generated hcldec spec / gohcl struct type (attributes: string number bool list set map object tuple any; blocks: single list set tuple with 0-8 labels (BlockLabelSpec / label fields), map and object-map with 1-8 LabelNames, attrs; up to 4 sibling blocks that often share a label prefix (typically all but the last label); nesting<=3) + conforming or single-fault instance, rendered as plain native text (reference) and 2-5 forms composing: JSON syntax (own emitter from json/spec.md), shuffled items, comments/odd whitespace/CRLF, hclwrite.Format, split into 2-9 files merged with hcl.MergeFiles or with nested / incremental hcl.MergeBodies (left- and right-nested, merge of merges, base grown one body at a time; attributes in exactly one file, per-type block order kept; some bodies decoded twice), layered configurations (one base of 1-9 files and 2-3 independent overlays merged onto the same base body, all merged bodies built before any is decoded, or decoded right after building as control, each compared with its own single-file text), runs of blocks folded into dynamic blocks (tuple/object/variable for_each, labels, custom iterator, nested, inherited iterator) expanded with dynblock.Expand. Oracle: every form agrees with the reference on has-errors and on the decoded value for hcldec.Decode and gohcl.DecodeBody, and the reference of a conforming instance decodes to the instance. Non-trivial: >=1 repeated or labelled block and a form composing >=2 rewrites; distinct = (valid/faulty, nesting>=2, widest rewrite combination of the case)",
 		Gen:  genA, Check: checkA, Classify: classifyA,
 		Assumptions: []string{
 			"go-cty (conversion, number parsing, set ordering) is the trusted base of the expected values",
